@@ -257,8 +257,9 @@ def run_module(env, p):
     clock = C.VirtualClock(1000.0)
     smod.time = clock
     nretry = env.choice('nretry', 3)
-    how = env.choice('how', 3)   # 0 finish normally, 1 stop, 2 raise
+    how = env.choice('how', 4)   # 0 finish normally, 1 stop, 2 raise, 3 restart requested while the run finishes in the same cycle
     calls = []
+    calls2 = []
 
     class Mod(HasStates, Drivable):
         def write_target(self, value):
@@ -273,7 +274,16 @@ def run_module(env, p):
                 return Retry
             if how == 2:
                 raise ValueError('hw')
+            if how == 3 and not calls2:
+                # a new start arrives (e.g. a change request from another thread) just before this run finishes
+                self.start_machine(self.second, fast_poll=False)
             return self.final_status(IDLE, 'done')
+
+        def second(self, sm):      # deliberately without status_code
+            calls2.append(1)
+            if len(calls2) < 3:
+                return Retry
+            return self.final_status(IDLE, 'second done')
 
     srv = C.make_node({'m': {'cls': Mod, 'description': 'm'}})
     m = srv.secnode.modules['m']
@@ -298,9 +308,19 @@ def run_module(env, p):
             return
         env.check(m.isBusy(m.status), K + '/not-busy-while-driving', [i, m.status])
     m.doPoll()
+    if how == 3:
+        # busy from the (second) start request until that run has finished
+        for _ in range(6):
+            if not m._state_machine.is_active:
+                break
+            env.check(m.isBusy(m.status), K + '/not-busy-while-restarted-run-is-active', [len(calls2), m.status])
+            m.doPoll()
+        env.check(len(calls2) == 3, K + '/restarted-run-not-executed', len(calls2))
     m.doPoll()
     env.check(not m._state_machine.is_active, K + '/machine-still-active')
     env.check(not m.isBusy(m.status), K + '/busy-after-finish', m.status)
+    if how == 3:
+        env.check(int(m.status[0]) == 100 and m.status[1] == 'second done', K + '/final-status-of-restarted-run', m.status)
     if how == 0:
         env.check(int(m.status[0]) == 100 and m.status[1] == 'done', K + '/final-status', m.status)
     for t in REQUIRED_TAGS:
